@@ -253,3 +253,5 @@ package bt
 //@   ensures[C16.amount_encoded] (=> (= err nil) (spec.coin_close (. o Value) (old (. out Satoshis))))
 //@ func bt.(*nodeOutputJSON).toOutput
 //@   ensures[C16.amount_decoded] (=> (= err nil) (forall ((s Int)) (=> (spec.coin_close (old (. o Value)) s) (= (. result Satoshis) s))))
+//@ func bt.(*nodeUTXOWrapper).UnmarshalJSON
+//@   lemma (forall ((s Int)) (=> (spec.coin_close (. uj Amount) s) (= (. (. n UTXO) Satoshis) s)))
